@@ -201,7 +201,7 @@ func runMerkle(c *Case) ([]Obs, any) {
 	tu := NewTxUniverse()
 	store := NewVStore(true)
 	fetcher := &faultFetcher{tu: tu, fail: map[int64]bool{}}
-	f := &flowNode{ctx: context.Background(), store: store, bu: bu, tu: tu, cfg: testCfg{2000}}
+	f := &flowNode{ctx: context.Background(), store: store, bu: bu, tu: tu, cfg: testCfg{delay: 2000}}
 	f.bootMerkle(fetcher)
 	ctx := f.ctx
 	if cfgInt(c, "insync", 0) != 0 {
@@ -294,7 +294,9 @@ func runMerkle(c *Case) ([]Obs, any) {
 					if next == nil {
 						return finish(ERR)
 					}
-					if err := f.node.ProcessBlock(ctx, next); err != nil {
+					perr := f.node.ProcessBlock(ctx, next)
+					nstate.BlockProcessed()
+					if perr != nil {
 						return finish(ERR)
 					}
 					return finish(OK)
